@@ -499,6 +499,10 @@ pub async fn open(cfg: &Cfg, dir: &Path, lazy: bool) -> Result<Box<dyn Sut>> {
 pub async fn open_sem(cfg: &Cfg, dir: &Path, lazy: bool, sem: Option<std::sync::Arc<tokio::sync::Semaphore>>) -> Result<Box<dyn Sut>> {
     match cfg.keylen {
         1 => open_n::<1>(cfg, dir, lazy, sem).await,
+        2 => open_n::<2>(cfg, dir, lazy, sem).await,
+        3 => open_n::<3>(cfg, dir, lazy, sem).await,
+        12 => open_n::<12>(cfg, dir, lazy, sem).await,
+        16 => open_n::<16>(cfg, dir, lazy, sem).await,
         4 => open_n::<4>(cfg, dir, lazy, sem).await,
         8 => open_n::<8>(cfg, dir, lazy, sem).await,
         32 => open_n::<32>(cfg, dir, lazy, sem).await,
